@@ -151,6 +151,11 @@ const GENERATED_ODD: &[(&str, &str)] = &[
     ("policies", "@a(\"x\")\n// comment between annotation and effect\npermit // c1\n( // c2\nprincipal, // c3\naction, resource) // c4\nwhen // c5\n{ true // c6\n} // c7\n; // c8"),
     ("policies", "permit(principal, action, resource)\r\nwhen {\r\n\ttrue // crlf\r\n};\r\n"),
     ("policies", "permit(principal, action, resource) when { if true then 1 };"),
+    // policy-set documents whose parts refer to each other inconsistently: a link that names a static policy,
+    // a slot-less entry under "templates" with a link, a link whose new id is taken, a link naming itself
+    ("policy_json", r#"{"staticPolicies": {"s": {"effect": "permit", "principal": {"op": "All"}, "action": {"op": "All"}, "resource": {"op": "All"}, "conditions": []}}, "templates": {}, "templateLinks": [{"templateId": "s", "newId": "L", "values": {}}]}"#),
+    ("policy_json", r#"{"staticPolicies": {}, "templates": {"t": {"effect": "permit", "principal": {"op": "All"}, "action": {"op": "All"}, "resource": {"op": "All"}, "conditions": []}}, "templateLinks": [{"templateId": "t", "newId": "L", "values": {}}]}"#),
+    ("policy_json", r#"{"staticPolicies": {"s": {"effect": "permit", "principal": {"op": "All"}, "action": {"op": "All"}, "resource": {"op": "All"}, "conditions": []}}, "templates": {"t": {"effect": "forbid", "principal": {"op": "in", "slot": "?principal"}, "action": {"op": "All"}, "resource": {"op": "==", "slot": "?resource"}, "conditions": []}}, "templateLinks": [{"templateId": "t", "newId": "s", "values": {"?principal": {"type": "U", "id": "a"}, "?resource": {"type": "U", "id": "b"}}}, {"templateId": "L", "newId": "L", "values": {}}, {"templateId": "t", "newId": "t", "values": {"?principal": {"type": "U", "id": "a"}}}]}"#),
     ("ffi_format", r#"{"policyText": "permit(principal, action, resource) when { principal.a && [1, 2, 3].contains(1) };", "lineWidth": 1, "indentWidth": 3}"#),
     ("ffi_format", r#"{"policyText": "// c
 permit(principal, action, resource);", "lineWidth": 0, "indentWidth": -5}"#),
